@@ -302,6 +302,8 @@ def b_list(ip, args, kwargs, node):
 
 def b_tuple(ip, args, kwargs, node):
     if args and getattr(args[0], "kind", "") == "mapped":
+        if args[0].conds:
+            raise Unsupported("tuple() of a filtered generator over a symbolic set")
         return args[0]
     return VTuple(ip.iterate(args[0]) if args else [])
 
@@ -561,11 +563,22 @@ def bytes_decode(ip, args, kwargs, node):
 
 def str_startswith(ip, args, kwargs, node):
     s, p = args[0], args[1]
+    if getattr(p, "kind", "") == "mapped" and p.conds:
+        raise Unsupported("startswith() over a filtered generator")
     if getattr(p, "kind", "") == "mapped":
         # s.startswith(tuple(f(x) for x in S)): some element of S whose image is a prefix of s
         x = z3.Const(ip.st.fresh_name("x"), sort_of_type(p.base.elem))
         img = p.image_of(ip, wrap(p.base.elem, x))
-        return VBool(z3.Exists([x], z3.And(z3.Select(ip.st.heap[(p.base.ref, "set")], x), z3.PrefixOf(img.term, s.term))))
+        full = z3.Exists([x], z3.And(z3.Select(ip.st.heap[(p.base.ref, "set")], x), z3.PrefixOf(img.term, s.term)))
+        pred = getattr(p, "pred", None)
+        if pred is None:
+            return VBool(full)
+        # a named predicate for "some image is a prefix of s" (a definitional extension): quantified clauses see only
+        # the name; its definition is unfolded at every ground point where code or a clause evaluates it
+        t = pred(s.term)
+        if getattr(ip, "quant_depth", 0) == 0:
+            ip.st.assume(t == full)
+        return VBool(t)
     if isinstance(p, VTuple):
         return VBool(_b(_or([z3.PrefixOf(x.term, s.term) for x in p.items])))
     return VBool(z3.PrefixOf(p.term, s.term))
@@ -774,8 +787,22 @@ def s_appended(ip, args, kwargs, node):
     """spec: the sequence s with x appended (a new sequence value)"""
     s, x = args
     ref = ip.st.new_ref()
-    ip.st.heap[(ref, "seq")] = z3.Concat(ip.st.heap[(s.ref, "seq")], z3.Unit(term_of(x)))
+    cur = ip.st.heap[(s.ref, "seq")]
+    new = z3.Concat(cur, z3.Unit(term_of(x)))
+    c = getattr(ip, "current_contract", None)
+    if c is not None and getattr(c, "seq_lemmas", False) and getattr(ip, "quant_depth", 0) == 0:
+        from .loops import named_append
+        new = named_append(ip.st, cur, term_of(x), new)
+    ip.st.heap[(ref, "seq")] = new
     return VSeq(ref, s.elem)
+
+
+def s_at(ip, args, kwargs, node):
+    """spec: at(s, i) - the i-th element of a sequence for 0 <= i < len(s), WITHOUT Python's negative-index wrap-around
+    (quantified clauses guard the index themselves; the wrap-around ite inside a quantifier defeats the solvers)"""
+    s, i = args
+    x = ip.st.heap[(s.ref, "seq")][i.term]
+    return wrap(s.elem, x) if s.elem[0] not in ("obj", "symobj") else VObj(s.elem[1], x)
 
 
 def s_nonempty(ip, args, kwargs, node):
@@ -853,7 +880,7 @@ def s_same_arr(ip, args, kwargs, node):
 SPEC_LIB = {"same_arr": VBuiltin("same_arr", s_same_arr), "map_with_if": VBuiltin("map_with_if", s_map_with_if), "empty_map": VBuiltin("empty_map", s_empty_map), "seq_of": VBuiltin("seq_of", s_seq_of), "is_insert_partial": VBuiltin("is_insert_partial", s_is_insert_partial),
             "partial_arg": VBuiltin("partial_arg", s_partial_arg),
             "is_noop_callable": VBuiltin("is_noop_callable", s_is_noop_callable), "last_now": VBuiltin("last_now", s_last_now), "contains": VBuiltin("contains", s_contains), "nonempty": VBuiltin("nonempty", s_nonempty), "nonempty_map": VBuiltin("nonempty_map", s_nonempty), "without": VBuiltin("without", s_without), "with_": VBuiltin("with_", s_with),
-            "appended": VBuiltin("appended", s_appended),"dt_in_range": VBuiltin("dt_in_range", s_dt_in_range), "td_in_range": VBuiltin("td_in_range", s_td_in_range),
+            "appended": VBuiltin("appended", s_appended), "at": VBuiltin("at", s_at), "dt_in_range": VBuiltin("dt_in_range", s_dt_in_range), "td_in_range": VBuiltin("td_in_range", s_td_in_range),
             "us": VBuiltin("us", s_us)}
 _orig_build = build_lib
 
